@@ -19,6 +19,9 @@ def main():
     if 'compiler_errors' in doc:
         print('this finding is a compile failure; reproduce with: ' + doc.get('reproduce', 'make -C sim'))
         return 1
+    if doc.get('random_grammars'):
+        os.environ['VERIF_RANDOM_GRAMMARS'] = doc['random_grammars']     # the fleet the plan was generated over
+        check.BUILDROOT = os.path.join(check.BUILDROOT, 'x')
     if not check.build([fl]):
         return 2
     env = dict(os.environ)
